@@ -47,6 +47,7 @@ type Script struct {
 	Encoder     string
 	NBuffers    int
 	BufLimit    int
+	HoldDrain   bool // every capture pauses for 100 ns of bubble time before it drains the packets it buffered during a pause (step hook): whoever may run meanwhile does
 	StartOffset int64 // ns after the start of the bubble clock at which the manager is started
 	Convs       []*Conv
 	Actions     []*Action
@@ -58,6 +59,7 @@ type Script struct {
 // Options select the domain of DrawScript.
 type Options struct {
 	Windows       bool // C21: script packets inside pause windows
+	HoldDrain     bool // C21: allow the held-drain schedule (see Script.HoldDrain)
 	V6InWindows   bool // allow IPv6 packets inside pause windows
 	OverflowClass bool // allow the tiny-buffer / long-window class
 	Ambiguous     bool // allow conversations whose orientation is not decisive
@@ -102,6 +104,9 @@ func DrawScript(t *rapid.T, o Options) *Script {
 		s.BufLimit = rapid.SampledFrom([]int{1, 64, 4096, 4100, 5000, 8192}).Draw(t, "buflimit")
 	}
 	s.StartOffset = rapid.SampledFrom([]int64{0, 0, 1e6, 100e9, 299e9}).Draw(t, "startoffset")
+	if o.HoldDrain && !overflow {
+		s.HoldDrain = rapid.IntRange(0, 2).Draw(t, "holddrain") == 0
+	}
 
 	nConv := rapid.IntRange(1, 5).Draw(t, "nconvs")
 	for i := 0; i < nConv; i++ {
@@ -254,6 +259,15 @@ func DrawScript(t *rapid.T, o Options) *Script {
 		}
 	}
 	s.NPackets = nextID
+	if s.HoldDrain {
+		// a held drain lets 100 ns of bubble time pass inside an event; the driver's model needs the events of an
+		// interval to end before its write-out: nothing is scheduled in the last 2 µs before a boundary
+		for _, a := range s.Actions {
+			if a.Kind != ActRotate && a.At%Interval > Interval-2000 {
+				a.At -= a.At%Interval - (Interval - 2000)
+			}
+		}
+	}
 	return s
 }
 
@@ -336,6 +350,9 @@ func (s *Script) HasWindows() bool {
 func (s *Script) Canon() string {
 	var b strings.Builder
 	fmt.Fprintf(&b, "ifaces=%v enc=%s bufs=%d/%d start=%d\n", s.Ifaces, s.Encoder, s.NBuffers, s.BufLimit, s.StartOffset)
+	if s.HoldDrain {
+		fmt.Fprintf(&b, "  schedule: every drain of a local buffer is held until nothing else can run\n")
+	}
 	for _, c := range s.Convs {
 		fmt.Fprintf(&b, "  %v amb=%v oneway=%v key=%v/%v\n", c, c.Ambiguous, c.OneWay, c.KeyFwd, c.KeyRev)
 	}
